@@ -1,6 +1,11 @@
-(* C04 — theorems (statements in full; proofs in Proofs/C04_*.v). *)
+(* C04 — theorems (statements in full; proofs in Proofs/C04_*.v).
+   Models: IO/Retry.v (_retry), IO/SendAll.v (send, send_all, default send_all_from_iterable),
+           IO/SendMsg.v (SocketStreamTransport.send_all_from_iterable, adjust_leftover_buffer), IO/TlsWrite.v.
+   Everything is quantified over all data / chunk lists (empty chunks anywhere), all scripted socket answers
+   (partial writes, accept-0, EAGAIN/EINTR, errors, call costs), all selector answers, all timeouts and retry
+   intervals.  `sk_wire` is the sequence of bytes the socket accepted, in order. *)
 From Coq Require Import ZArith List Bool Lia Arith.
-From EN Require Import Lib.Bytes IO.Retry IO.SendAll IO.SendMsg IO.TlsWrite Proofs.C04_adjust.
+From EN Require Import Lib.Bytes IO.Retry IO.SendAll IO.SendMsg IO.TlsWrite Proofs.C04_adjust Proofs.C04_send.
 Import ListNotations.
 
 (* adjust_leftover_buffer(buffers, n): afterwards the deque represents the unsent suffix, and a deque of non-empty
@@ -11,3 +16,114 @@ Theorem adjust_leftover_spec : forall (bufs : list bytes) (n : nat),
   /\ (Forall (fun b => b <> []) bufs -> Forall (fun b => b <> []) (adjust_leftover bufs n)).
 Proof. exact adjust_leftover_spec_proof. Qed.
 Print Assumptions adjust_leftover_spec.
+
+(* send_all(data, T): whatever happens, the socket has accepted a prefix of `data` after what was on the wire
+   before (nothing duplicated, nothing reordered); if send_all returns, it has accepted exactly `data`. *)
+Theorem send_all_exact :
+  forall (F : nat) (ri : tmo) (fuel : nat) (data : bytes) (T : tmo) (s : sock) (sels : list selans),
+    let r := send_all F ri fuel data T s sels in
+    exists sent : bytes,
+      sk_wire (sr_sock r) = sk_wire s ++ sent
+      /\ (exists rest, data = sent ++ rest)
+      /\ (sr_out r = SOk -> sent = data).
+Proof. exact send_all_exact_proof. Qed.
+Print Assumptions send_all_exact.
+
+(* SocketStreamTransport.send_all_from_iterable(chunks, T) on every path (sendmsg loop with any SC_IOV_MAX, join
+   path without sendmsg or with SC_IOV_MAX <= 0), repaired or not: a prefix of concat chunks on failure, exactly
+   concat chunks on return. *)
+Theorem sendmsg_exact :
+  forall (drop_empty has_sendmsg : bool) (iov : Z) (F fuel : nat) (ri : tmo) (chunks : list bytes) (T : tmo)
+         (s : sock) (sels : list selans),
+    let r := send_iter drop_empty has_sendmsg iov F fuel ri chunks T s sels in
+    exists sent : bytes,
+      sk_wire (sr_sock r) = sk_wire s ++ sent
+      /\ (exists rest, concat chunks = sent ++ rest)
+      /\ (sr_out r = SOk -> sent = concat chunks).
+Proof. exact send_iter_exact_proof. Qed.
+Print Assumptions sendmsg_exact.
+
+(* send_all terminates: more fuel than scripted answers is enough, whatever the answers, selector and timeout. *)
+Theorem send_all_terminates :
+  forall (F : nat) (ri : tmo) (fuel : nat) (data : bytes) (T : tmo) (s : sock) (sels : list selans),
+    (length (sk_script s) < F)%nat -> (length (sk_script s) < fuel)%nat ->
+    sr_out (send_all F ri fuel data T s sels) <> SFuel.
+Proof. exact send_all_terminates_proof. Qed.
+Print Assumptions send_all_terminates.
+
+(* send_terminates (repaired send_all_from_iterable, i.e. empty views dropped when the deque is built): for ALL
+   chunk lists, including empty chunks anywhere, the call finishes within
+   total_bytes + #scripted answers + #chunks + 1 iterations / socket calls per _retry -- the bound the harness
+   enforces on the real code. *)
+Theorem send_terminates :
+  forall (has_sendmsg : bool) (iov : Z) (ri : tmo) (chunks : list bytes) (T : tmo) (script : list sockans)
+         (sels : list selans),
+    let F := (length (concat chunks) + length script + length chunks + 1)%nat in
+    sr_out (send_iter true has_sendmsg iov F F ri chunks T (mk_sock script []) sels) <> SFuel.
+Proof. exact send_iter_terminates_proof. Qed.
+Print Assumptions send_terminates.
+
+(* no_spin: in the repaired loop (no empty view in the deque) every iteration that does not end the call strictly
+   decreases (remaining bytes, remaining scripted answers) lexicographically. *)
+Theorem no_spin :
+  forall (F : nat) (ri : tmo) (iov : nat) (bufs : list bytes) (T : tmo) (s : sock) (sels : list selans)
+         (sent : nat) (T1 : tmo),
+    (0 < iov)%nat -> Forall (fun b => b <> []) bufs -> bufs <> [] ->
+    rr_out (retry (sock_sendmsg iov bufs) F ri T s sels) = ROk sent T1 ->
+    (0 < sent)%nat
+    \/ (length (sk_script (rr_st (retry (sock_sendmsg iov bufs) F ri T s sels))) < length (sk_script s))%nat.
+Proof. exact sendmsg_iteration_progress. Qed.
+Print Assumptions no_spin.
+
+(* Termination of the sendmsg loop itself for any deque of non-empty views. *)
+Theorem sendmsg_loop_terminates_nonempty :
+  forall (F : nat) (ri : tmo) (iov fuel : nat) (bufs : list bytes) (T : tmo) (s : sock) (sels : list selans),
+    (0 < iov)%nat -> Forall (fun b => b <> []) bufs ->
+    (length (sk_script s) < F)%nat -> (length (sk_script s) + length bufs <= fuel)%nat ->
+    sr_out (sendmsg_loop F ri iov fuel bufs T s sels) <> SFuel.
+Proof. exact sendmsg_loop_terminates. Qed.
+Print Assumptions sendmsg_loop_terminates_nonempty.
+
+(* F2: the loop of the unchanged tree (empty views kept) does NOT terminate on [b"abc", b""]: for every amount of
+   fuel, every retry interval, every valid timeout and every selector script the model is still looping.
+   (Replayed on the real code by corpus/C04/f2_trailing_empty_chunk.json.) *)
+Theorem sendmsg_terminates_unfixed_refuted :
+  exists chunks : list bytes,
+    forall (F fuel : nat) (ri T : tmo) (sels : list selans),
+      (0 < F)%nat -> (0 < fuel)%nat -> tmo_neg T = false ->
+      sr_out (send_iter false true 1024 F fuel ri chunks T (mk_sock [] []) sels) = SFuel.
+Proof. exists [[97%N; 98%N; 99%N]; []]. exact sendmsg_unfixed_spins_proof. Qed.
+Print Assumptions sendmsg_terminates_unfixed_refuted.
+
+(* Async TLS write backlog (__write_all_to_ssl_object under _retry_ssl_method): exact and terminating, empty
+   chunks included. *)
+Theorem tls_write_exact :
+  forall (fuel : nat) (backlog : list bytes) (s : sock),
+    let r := tls_write_loop fuel backlog s in
+    exists sent : bytes,
+      sk_wire (sr_sock r) = sk_wire s ++ sent
+      /\ (exists rest, concat backlog = sent ++ rest)
+      /\ (sr_out r = SOk -> sent = concat backlog).
+Proof. exact tls_write_loop_exact. Qed.
+Print Assumptions tls_write_exact.
+
+Theorem tls_write_terminates :
+  forall (fuel : nat) (backlog : list bytes) (s : sock),
+    (length (sk_script s) + length backlog <= fuel)%nat ->
+    sr_out (tls_write_loop fuel backlog s) <> SFuel.
+Proof. exact tls_write_loop_terminates. Qed.
+Print Assumptions tls_write_terminates.
+
+(* ---- non-vacuity: partial writes, a would-block answered by the selector, an empty chunk in the middle *)
+Example send_iter_runs :
+  let chunks := [[1%N; 2%N]; []; [3%N; 4%N; 5%N]] in
+  let script := [SSent 1 0; SBlock true 0; SSent 2 0] in
+  let r := send_iter true true 2 9 9 (Some 1%Z) chunks (Some 8%Z) (mk_sock script []) [{| sa_ready := true; sa_el := 1 |}] in
+  sr_out r = SOk /\ sk_wire (sr_sock r) = [1%N; 2%N; 3%N; 4%N; 5%N] /\ length (sr_waits r) = 1%nat.
+Proof. vm_compute. repeat split. Qed.
+
+Example send_iter_times_out :
+  let r := send_iter true true 2 9 9 None [[1%N; 2%N]] (Some 3%Z) (mk_sock [SSent 1 0; SBlock true 0] [])
+                     [{| sa_ready := false; sa_el := 3 |}] in
+  sr_out r = SExc E_TIMEOUT /\ sk_wire (sr_sock r) = [1%N].
+Proof. vm_compute. split; reflexivity. Qed.
